@@ -160,6 +160,7 @@ type Path struct {
 	covered   map[string]bool
 	log       []string
 	pollFired bool
+	ufCalls   map[string][][2]*Term
 	fnSeen      map[*ssa.Function]bool
 	onceDone    map[*value]bool
 	fmtDepth    int
